@@ -19,14 +19,52 @@ type m2 struct {
 	n    *NFA
 	argv []string
 	// constrained arg search: nil => acceptance only
-	want  map[*ArgDecl][]string
-	wantO map[*OptDecl][]string
-	memo  map[string]bool // failed configurations
-	uncl  bool
-	steps int
-	trace []Occ // option occurrences consumed on the accepting path, reversed
-	hasDD bool
-	hard  bool
+	want   map[*ArgDecl][]string
+	wantO  map[*OptDecl][]string
+	memo   map[string]bool // failed configurations
+	uncl   bool
+	steps  int
+	trace  []Occ // option occurrences consumed on the accepting path, reversed
+	hasDD  bool
+	hard   bool
+	capped bool
+	// run keys are interned: a run is an immutable slice, identified by its first element and length
+	rkBySlice map[sliceID]int
+	rkByText  map[string]int
+	reads     map[int]readRes
+}
+
+type readRes struct {
+	run []Occ
+	j   int
+	bad int
+}
+
+type sliceID struct {
+	p *Occ
+	n int
+}
+
+func (m *m2) runID(run []Occ) int {
+	if len(run) == 0 {
+		return 0
+	}
+	if m.rkBySlice == nil {
+		m.rkBySlice = map[sliceID]int{}
+		m.rkByText = map[string]int{}
+	}
+	sid := sliceID{&run[0], len(run)}
+	if id, ok := m.rkBySlice[sid]; ok {
+		return id
+	}
+	txt := runKey(run)
+	id, ok := m.rkByText[txt]
+	if !ok {
+		id = len(m.rkByText) + 1
+		m.rkByText[txt] = id
+	}
+	m.rkBySlice[sid] = id
+	return id
 }
 
 func (m *m2) norm(c cfg) cfg {
@@ -34,8 +72,17 @@ func (m *m2) norm(c cfg) cfg {
 		return c
 	}
 	if len(c.run) == 0 {
-		c.run, c.i = ReadRun(m.p, m.argv, c.i)
-		if m.hasDD && BadKind(m.p, m.argv, c.i) == 2 {
+		rr, ok := m.reads[c.i]
+		if !ok {
+			rr.run, rr.j = ReadRun(m.p, m.argv, c.i)
+			rr.bad = BadKind(m.p, m.argv, rr.j)
+			if m.reads == nil {
+				m.reads = map[int]readRes{}
+			}
+			m.reads[c.i] = rr
+		}
+		c.run, c.i = rr.run, rr.j
+		if m.hasDD && rr.bad == 2 {
 			m.uncl = true
 			m.hard = true
 		}
@@ -56,7 +103,7 @@ func (m *m2) key(c cfg, used []int) string {
 		sb.WriteByte('E')
 	}
 	sb.WriteByte('|')
-	sb.WriteString(runKey(c.run))
+	sb.WriteString(strconv.Itoa(m.runID(c.run)))
 	for _, u := range used {
 		sb.WriteByte('|')
 		sb.WriteString(strconv.Itoa(u))
@@ -65,8 +112,15 @@ func (m *m2) key(c cfg, used []int) string {
 }
 
 // used[k] = number of values of arg k already matched against want
+// MaxRefSteps bounds the reference search; beyond it the case is unclaimed (never a verdict)
+const MaxRefSteps = 400000
+
 func (m *m2) ok(c cfg, used []int) bool {
 	m.steps++
+	if m.steps > MaxRefSteps {
+		m.capped = true
+		return false
+	}
 	c = m.norm(c)
 	k := m.key(c, used)
 	if m.memo[k] {
@@ -270,7 +324,7 @@ func Decide(p *Prog, n *NFA, argv []string) Verdict {
 	m := &m2{p: p, n: n, argv: argv, memo: map[string]bool{}, hasDD: p.HasDD()}
 	used := make([]int, len(p.Args)+len(p.Opts))
 	acc := m.ok(cfg{q: n.Start}, used)
-	v := Verdict{Accept: acc, Unclaimed: (m.uncl && !acc) || m.hard, Steps: m.steps}
+	v := Verdict{Accept: acc, Unclaimed: (m.uncl && !acc) || m.hard || m.capped, Steps: m.steps}
 	if FoldedEq(p, argv) {
 		v.Unclaimed = true
 	}
@@ -290,7 +344,11 @@ func Admits(p *Prog, n *NFA, argv []string, want map[*ArgDecl][]string, wantO ma
 		m.want = map[*ArgDecl][]string{}
 	}
 	used := make([]int, len(p.Args)+len(p.Opts))
-	return m.ok(cfg{q: n.Start}, used), m.uncl
+	ok := m.ok(cfg{q: n.Start}, used)
+	if m.capped {
+		return false, true
+	}
+	return ok, m.uncl
 }
 
 // HasUndeclaredEq: an undeclared "-x=..." token before the end of options (only matters with a spec level --)
